@@ -52,6 +52,7 @@ type Case struct {
 	Q       []gen.P `json:"q,omitempty"`            // extra query points; a fixed lattice is always asked
 	Lattice int     `json:"lattice,omitempty"`      // lattice side, default 6
 	Primary bool    `json:"primary_only,omitempty"` // only the typed entry point of the kind (corpus cases)
+	Lean    bool    `json:"lean,omitempty"`         // skip the repeat calls (scribble / shared layout); large quick rungs
 }
 
 type ringInfo struct {
@@ -350,6 +351,7 @@ type outcome struct {
 	zeroArea int // zero-area output rings (tolerated artefacts)
 	asked    int // query points actually asked
 	outPolys int
+	notes    []string // layout notes: facts about memory layout that are counted, never failed on
 	// holeNotFirst: the result has >= 2 polygons and a polygon other than the first carries a hole
 	holeNotFirst bool
 }
@@ -382,39 +384,216 @@ func geomToMP(g orb.Geometry) (orb.MultiPolygon, error) {
 	return nil, fmt.Errorf("smartclip.Geometry returned %T", g)
 }
 
+// entry is one way of handing the case to smartclip. on receives a caller-owned input value (never cloned
+// by on); call lays the case's geometry out in fresh, guarded memory first and checks afterwards that the
+// argument was only read (round L4: every argument is read-only – smartclip documents no exception; box
+// and orientation are passed by value).
 type entry struct {
 	name string
-	call func() (orb.MultiPolygon, error)
+	src  orb.Geometry
+	on   func(in orb.Geometry) (orb.MultiPolygon, error)
+}
+
+func (e entry) call() (orb.MultiPolygon, error) { return e.callLayout(false, nil) }
+
+// callLayout: shared = all rings as consecutive windows of ONE backing array (the capacity of a ring runs
+// into its siblings) and all ring headers / polygons as windows of one backing array each (round L5:
+// members of one input that share memory with each other); otherwise every slice has its own array with
+// three spare slots holding sentinels.
+// note receives layout notes (facts about memory layout that are no violations); may be nil.
+func (e entry) callLayout(shared bool, notef func(string)) (orb.MultiPolygon, error) {
+	in, verify := guarded(e.src, shared)
+	out, err := e.on(in)
+	if err != nil {
+		return out, err
+	}
+	note, verr := verify()
+	if verr != nil {
+		return out, fmt.Errorf("the value of the input argument was changed (shared layout %v): %v", shared, verr)
+	}
+	if note != "" && notef != nil {
+		notef(note)
+	}
+	return out, nil
+}
+
+var sentinel = orb.Point{-7.7e77, 3.3e33}
+
+// guarded copies g into fresh memory and returns a function that verifies that this memory still holds
+// the VALUE g: the number of polygons and rings, every ring's length and every coordinate bit within len
+// (in the shared layout that includes the next member, which is what a write past a ring's end hits).
+// smartclip is not documented to modify its input, so a changed value is a failure: the caller's geometry
+// is no longer what it built. A write that changes no value the caller can reach without re-slicing beyond
+// len – the sentinel cells in spare capacity – is only reported as a layout note (soundness rule of round
+// L: memory-layout facts are not violations).
+func guarded(g orb.Geometry, shared bool) (orb.Geometry, func() (string, error)) {
+	var mp orb.MultiPolygon
+	switch v := g.(type) {
+	case orb.Ring:
+		mp = orb.MultiPolygon{{v}}
+	case orb.Polygon:
+		mp = orb.MultiPolygon{v}
+	case orb.MultiPolygon:
+		mp = v
+	}
+	nr, np := 0, 0
+	for _, p := range mp {
+		nr += len(p)
+		for _, r := range p {
+			np += len(r)
+		}
+	}
+	const spare = 3
+	var pbuf []orb.Point
+	if shared {
+		pbuf = make([]orb.Point, np+spare)
+		for i := np; i < len(pbuf); i++ {
+			pbuf[i] = sentinel
+		}
+	}
+	guardRing := orb.Ring{sentinel}
+	guardPoly := orb.Polygon{guardRing}
+	var rbuf []orb.Ring
+	if shared {
+		rbuf = make([]orb.Ring, nr+spare)
+		for i := nr; i < len(rbuf); i++ {
+			rbuf[i] = guardRing
+		}
+	}
+	cp := make(orb.MultiPolygon, len(mp), len(mp)+spare)
+	for i := len(mp); i < cap(cp); i++ {
+		cp[:cap(cp)][i] = guardPoly
+	}
+	pat, rat := 0, 0
+	for i, p := range mp {
+		var rs []orb.Ring
+		if shared {
+			rs = rbuf[rat : rat+len(p)]
+			rat += len(p)
+		} else {
+			full := make([]orb.Ring, len(p)+spare)
+			for k := len(p); k < len(full); k++ {
+				full[k] = guardRing
+			}
+			rs = full[:len(p)]
+		}
+		for j, r := range p {
+			var pts []orb.Point
+			if shared {
+				pts = pbuf[pat : pat+len(r)]
+				pat += len(r)
+			} else {
+				full := make([]orb.Point, len(r)+spare)
+				for k := len(r); k < len(full); k++ {
+					full[k] = sentinel
+				}
+				pts = full[:len(r)]
+			}
+			copy(pts, r)
+			rs[j] = orb.Ring(pts)
+		}
+		cp[i] = orb.Polygon(rs)
+	}
+	isSentinel := func(p orb.Point) bool {
+		return math.Float64bits(p[0]) == math.Float64bits(sentinel[0]) && math.Float64bits(p[1]) == math.Float64bits(sentinel[1])
+	}
+	verify := func() (string, error) {
+		note := ""
+		full := cp[:cap(cp)]
+		for i := len(mp); i < len(full); i++ {
+			if len(full[i]) != 1 || len(full[i][0]) != 1 || !isSentinel(full[i][0][0]) {
+				note = "spare capacity of the argument's polygon list was written"
+			}
+		}
+		for i, p := range mp {
+			q := full[i]
+			if len(q) != len(p) {
+				return note, fmt.Errorf("polygon %d now has %d rings, had %d", i, len(q), len(p))
+			}
+			qq := q[:cap(q)]
+			if !shared {
+				for k := len(q); k < len(qq); k++ {
+					if len(qq[k]) != 1 || !isSentinel(qq[k][0]) {
+						note = "spare capacity of the argument's ring list was written"
+					}
+				}
+			}
+			for j, r := range p {
+				x := q[j]
+				if len(x) != len(r) {
+					return note, fmt.Errorf("polygon %d ring %d now has %d vertices, had %d", i, j, len(x), len(r))
+				}
+				for k := range r {
+					if math.Float64bits(x[k][0]) != math.Float64bits(r[k][0]) || math.Float64bits(x[k][1]) != math.Float64bits(r[k][1]) {
+						return note, fmt.Errorf("polygon %d ring %d vertex %d is now %v, was %v", i, j, k, x[k], r[k])
+					}
+				}
+				if !shared {
+					xx := x[:cap(x)]
+					for k := len(x); k < len(xx); k++ {
+						if !isSentinel(xx[k]) {
+							note = "spare capacity of an argument ring was written"
+						}
+					}
+				}
+			}
+		}
+		if shared {
+			for k := np; k < len(pbuf); k++ {
+				if !isSentinel(pbuf[k]) {
+					note = "spare capacity behind the argument's shared vertex array was written"
+				}
+			}
+			for k := nr; k < len(rbuf); k++ {
+				if len(rbuf[k]) != 1 || !isSentinel(rbuf[k][0]) {
+					note = "spare capacity behind the argument's shared ring-header array was written"
+				}
+			}
+		}
+		return note, nil
+	}
+	switch g.(type) {
+	case orb.Ring:
+		return cp[0][0], verify
+	case orb.Polygon:
+		return cp[0], verify
+	}
+	return cp, verify
 }
 
 func entries(c Case, skipMulti bool) []entry {
 	box := c.Box.Bound()
 	o := orb.Orientation(c.O)
 	var es []entry
-	switch g := c.Geom.V.(type) {
+	src := c.Geom.V
+	switch src.(type) {
 	case orb.Ring:
 		es = []entry{
-			{"smartclip.Ring", func() (orb.MultiPolygon, error) { return smartclip.Ring(box, cloneRing(g), o), nil }},
-			{"smartclip.Polygon{ring}", func() (orb.MultiPolygon, error) {
-				return smartclip.Polygon(box, orb.Polygon{cloneRing(g)}, o), nil
+			{"smartclip.Ring", src, func(in orb.Geometry) (orb.MultiPolygon, error) { return smartclip.Ring(box, in.(orb.Ring), o), nil }},
+			{"smartclip.Polygon{ring}", src, func(in orb.Geometry) (orb.MultiPolygon, error) {
+				return smartclip.Polygon(box, orb.Polygon{in.(orb.Ring)}, o), nil
 			}},
-			{"smartclip.MultiPolygon{{ring}}", func() (orb.MultiPolygon, error) {
-				return smartclip.MultiPolygon(box, orb.MultiPolygon{{cloneRing(g)}}, o), nil
+			{"smartclip.MultiPolygon{{ring}}", src, func(in orb.Geometry) (orb.MultiPolygon, error) {
+				return smartclip.MultiPolygon(box, orb.MultiPolygon{{in.(orb.Ring)}}, o), nil
 			}},
-			{"smartclip.Geometry(ring)", func() (orb.MultiPolygon, error) { return geomToMP(smartclip.Geometry(box, cloneRing(g), o)) }},
+			{"smartclip.Geometry(ring)", src, func(in orb.Geometry) (orb.MultiPolygon, error) { return geomToMP(smartclip.Geometry(box, in, o)) }},
 		}
 	case orb.Polygon:
 		es = []entry{
-			{"smartclip.Polygon", func() (orb.MultiPolygon, error) { return smartclip.Polygon(box, clonePoly(g), o), nil }},
-			{"smartclip.MultiPolygon{polygon}", func() (orb.MultiPolygon, error) {
-				return smartclip.MultiPolygon(box, orb.MultiPolygon{clonePoly(g)}, o), nil
+			{"smartclip.Polygon", src, func(in orb.Geometry) (orb.MultiPolygon, error) {
+				return smartclip.Polygon(box, in.(orb.Polygon), o), nil
 			}},
-			{"smartclip.Geometry(polygon)", func() (orb.MultiPolygon, error) { return geomToMP(smartclip.Geometry(box, clonePoly(g), o)) }},
+			{"smartclip.MultiPolygon{polygon}", src, func(in orb.Geometry) (orb.MultiPolygon, error) {
+				return smartclip.MultiPolygon(box, orb.MultiPolygon{in.(orb.Polygon)}, o), nil
+			}},
+			{"smartclip.Geometry(polygon)", src, func(in orb.Geometry) (orb.MultiPolygon, error) { return geomToMP(smartclip.Geometry(box, in, o)) }},
 		}
 	case orb.MultiPolygon:
 		es = []entry{
-			{"smartclip.MultiPolygon", func() (orb.MultiPolygon, error) { return smartclip.MultiPolygon(box, cloneMP(g), o), nil }},
-			{"smartclip.Geometry(multipolygon)", func() (orb.MultiPolygon, error) { return geomToMP(smartclip.Geometry(box, cloneMP(g), o)) }},
+			{"smartclip.MultiPolygon", src, func(in orb.Geometry) (orb.MultiPolygon, error) {
+				return smartclip.MultiPolygon(box, in.(orb.MultiPolygon), o), nil
+			}},
+			{"smartclip.Geometry(multipolygon)", src, func(in orb.Geometry) (orb.MultiPolygon, error) { return geomToMP(smartclip.Geometry(box, in, o)) }},
 		}
 	}
 	if c.Primary && len(es) > 1 {
@@ -442,7 +621,8 @@ func evaluate(c Case) (outcome, error) {
 	}
 	var first orb.MultiPolygon
 	for i, e := range entries(c, an.knownMultiShape && !includeKnown()) {
-		out, err := e.call()
+		notef := func(n string) { oc.notes = append(oc.notes, n) }
+		out, err := e.callLayout(false, notef)
 		if err != nil {
 			return oc, fmt.Errorf("%s: %v", e.name, err)
 		}
@@ -454,8 +634,10 @@ func evaluate(c Case) (outcome, error) {
 			first = snap
 		}
 		if identical {
-			if err := independent(e, out, snap); err != nil {
-				return oc, fmt.Errorf("%s: %v", e.name, err)
+			if !c.Lean {
+				if err := independent(e, out, snap, notef); err != nil {
+					return oc, fmt.Errorf("%s: %v", e.name, err)
+				}
 			}
 			continue
 		}
@@ -471,21 +653,37 @@ func evaluate(c Case) (outcome, error) {
 		if err != nil {
 			return oc, fmt.Errorf("%s: %v", e.name, err)
 		}
-		if err := independent(e, out, snap); err != nil {
+		if c.Lean {
+			continue
+		}
+		if err := independent(e, out, snap, notef); err != nil {
 			return oc, fmt.Errorf("%s: %v", e.name, err)
+		}
+		// round L5: the same geometry with its members laid out as windows of shared backing arrays must
+		// give what independent copies give
+		if i == 0 || !c.Primary {
+			shared, err := e.callLayout(true, notef)
+			if err != nil {
+				return oc, fmt.Errorf("%s: %v", e.name, err)
+			}
+			if same, why := gen.SameBits(shared, snap); !same {
+				return oc, fmt.Errorf("%s: rings laid out as windows of one backing array give a different result than independent copies (%s): %v, independent copies gave %v", e.name, why, shared, snap)
+			}
 		}
 	}
 	return oc, nil
 }
 
-// independent: a result is a value of its own (round J class C). out is scribbled on ring by ring –
-// every point overwritten, two points appended into whatever spare capacity the ring has, a ring appended
-// to every polygon, a polygon appended to the result – and (a) the rings not yet scribbled on must stay
-// bit-identical to the snapshot taken before (siblings do not share memory), (b) the same call repeated on
-// a fresh copy of the input must return the snapshot again (nothing the package keeps was reachable from
-// the result). The input copy handed to the first call may legitimately be aliased by the result
-// ("returned unchanged"); it is never used again.
-func independent(e entry, out, snap orb.MultiPolygon) error {
+// independent: a result is a value of its own (round J class C, reduced by the soundness rule of round L).
+// out is scribbled on – every point of every ring overwritten, two points appended into whatever spare
+// capacity a ring has, a ring appended to every polygon, a polygon appended to the result – and then the
+// same call is repeated on a fresh copy of the input: it must return the snapshot taken before the
+// scribbling (nothing the package keeps between calls was reachable from the result). That is a wrong
+// VALUE of a later call and stays a failure. Whether scribbling on one ring of the result changes a
+// sibling ring of the same result is a fact about memory layout only: it is counted as a layout note.
+// The input copy handed to the first call may legitimately be aliased by the result ("returned
+// unchanged"); it is never used again.
+func independent(e entry, out, snap orb.MultiPolygon, notef func(string)) error {
 	junk := orb.Point{-1.2345678e200, 8.7654321e199}
 	sameRing := func(a, b orb.Ring) bool {
 		if len(a) != len(b) {
@@ -498,38 +696,40 @@ func independent(e entry, out, snap orb.MultiPolygon) error {
 		}
 		return true
 	}
-	untouched := func(fromP, fromR int, what string) error {
-		for pj := fromP; pj < len(snap); pj++ {
-			if len(out[pj]) < len(snap[pj]) {
-				return fmt.Errorf("%s changed the number of rings of polygon %d", what, pj)
-			}
-			r0 := 0
-			if pj == fromP {
-				r0 = fromR
-			}
-			for rj := r0; rj < len(snap[pj]); rj++ {
-				if !sameRing(out[pj][rj], snap[pj][rj]) {
-					return fmt.Errorf("%s changed polygon %d ring %d of the same result: %v, was %v", what, pj, rj, out[pj][rj], snap[pj][rj])
+	// scribble on every other ring, look at the rest (note only), then scribble on the rest
+	siblingsShare := false
+	for phase := 0; phase < 2; phase++ {
+		k := 0
+		for pi := range snap {
+			for ri := range snap[pi] {
+				if k%2 == phase && pi < len(out) && ri < len(out[pi]) {
+					r := out[pi][ri]
+					for j := range r {
+						r[j] = junk
+					}
+					out[pi][ri] = append(r, junk, junk)
 				}
+				k++
 			}
 		}
-		return nil
+		if phase == 1 {
+			break
+		}
+		k = 0
+		for pi := range snap {
+			for ri := range snap[pi] {
+				if k%2 == 1 && (pi >= len(out) || ri >= len(out[pi]) || !sameRing(out[pi][ri], snap[pi][ri])) {
+					siblingsShare = true
+				}
+				k++
+			}
+		}
 	}
-	for pi := range snap {
-		for ri := range snap[pi] {
-			r := out[pi][ri]
-			for k := range r {
-				r[k] = junk
-			}
-			out[pi][ri] = append(r, junk, junk)
-			if err := untouched(pi, ri+1, fmt.Sprintf("overwriting and appending to polygon %d ring %d of the result", pi, ri)); err != nil {
-				return err
-			}
-		}
+	if siblingsShare && notef != nil {
+		notef("rings of one result share memory (scribbling on one changed a sibling)")
+	}
+	for pi := range out {
 		out[pi] = append(out[pi], orb.Ring{junk, junk})
-		if err := untouched(pi+1, 0, fmt.Sprintf("appending a ring to polygon %d of the result", pi)); err != nil {
-			return err
-		}
 	}
 	out = append(out, orb.Polygon{{junk}})
 	_ = out
@@ -538,6 +738,9 @@ func independent(e entry, out, snap orb.MultiPolygon) error {
 		return err
 	}
 	if same, why := gen.SameBits(again, snap); !same {
+		if len(snap) > 64 {
+			return fmt.Errorf("the same call on a fresh copy of the input, after the first result was scribbled on, returned something else (%s)", why)
+		}
 		return fmt.Errorf("the same call on a fresh copy of the input, after the first result was scribbled on, returned something else (%s): %v, first result was %v", why, again, snap)
 	}
 	return nil
@@ -766,6 +969,16 @@ func TestReplay(t *testing.T) {
 			if err := stats.ParallelErr(len(cs), 200, f); err != nil {
 				t.Fatalf("replayed concurrent group still fails: %v", err)
 			}
+		}
+		return
+	}
+	if name, _, _ := stats.Replaying(); name == "TestPropAliasedMembers" {
+		var a AliasCase
+		if err := json.Unmarshal(raw, &a); err != nil {
+			t.Fatal(err)
+		}
+		if err := stats.Guard(func() error { return checkAlias(a) }); err != nil {
+			t.Fatalf("replayed case still fails: %v", err)
 		}
 		return
 	}
